@@ -3,6 +3,7 @@
 // as test/celeritas/em/distribution/EnergyLossHelper.test.cc does (argon).
 // stdin:  eloss <pid 0=e- 1=mu-> <material 0=Ar 1=H 2=C 3=Pb> <energy MeV> <mean_loss MeV> <step cm> <cutoff MeV> <k> u...
 //         urbanctor <material> <unscaled mean> <max_energy> <two_mebsgs> <beta_sq> <k> u...  (direct constructor)
+//         urbanN <material> <mean> <max_energy> <two_mebsgs> <beta_sq> <n> <k> u...  (n samples)
 //         gaussN|gammadN <a> <b> <n> <k> u...   (n samples, mean-of-law oracle)
 //         gauss <mean> <stddev> <k> u...        (EnergyLossGaussianDistribution, n samples=2)
 //         gammad <mean> <var> <k> u...          (EnergyLossGammaDistribution)
@@ -139,6 +140,25 @@ int main()
                           << hex(x2) << "\n";
             }
             catch (verif::StreamExhausted const&) { std::cout << "exhausted\n"; }
+            continue;
+        }
+        if (kind == "urbanN")
+        {   // n samples from one directly constructed Urban distribution (sampling-side mean oracle)
+            int matid; is >> matid;
+            double mean = rd(is), max_e = rd(is), tmb = rd(is), bsq = rd(is);
+            int n; is >> n;
+            verif::ReplayEngine rng(verif::rdvec(is));
+            MaterialTrackView material(su.materials->host_ref(),
+                                       su.material_state.ref(), TrackSlotId{0});
+            material = {MaterialId(matid)};
+            EnergyLossUrbanDistribution d(su.fluct->host_ref(), material,
+                                          MevEnergy{mean}, MevEnergy{max_e},
+                                          units::MevMass{tmb}, bsq);
+            std::cout << "ok " << hex(d.xs_exc_[0]) << " " << hex(d.xs_exc_[1]) << " "
+                      << hex(d.xs_ion_);
+            try { for (int i = 0; i < n; ++i) std::cout << " " << hex(d(rng).value()); }
+            catch (verif::StreamExhausted const&) {}
+            std::cout << "\n";
             continue;
         }
         if (kind == "urbanctor")
